@@ -400,7 +400,42 @@ def run_scalar_values(ctx, p):
     ctx.nontrivial('scalar_values', c, op, side, len(p['obj']))
 
 
-RUNNERS = {'cell': run_cell, 'scalar_values': run_scalar_values}
+def run_mixed_eq(ctx, p):
+    """== / != on pose objects whose values are of mixed kind (floating point and symbolic, in any order): one boolean per value,
+    no exception; an object equals itself"""
+    import sympy
+    sm = S()
+    c, order, other = p['cls'], p['order'], p['other']
+    th = sympy.Symbol('theta')
+    C = getattr(sm, c)
+    one = {'SO3': lambda a: sm.SO3.Rx(a), 'SE3': lambda a: sm.SE3.Rx(a), 'SO2': lambda a: sm.SO2(a), 'SE2': lambda a: sm.SE2(1, 2, a)}[c]
+    sig = dict(left=c, right=c, op='eq/ne', lens='mixed kinds')
+    try:
+        X = C([one(th) if k == 's' else one(0.1 * (i + 1)) for i, k in enumerate(order)])
+        Y = {'self': X, 'single': one(0.1), 'numeric': C([one(0.1 * (i + 1)) for i in range(len(order))]),
+             'symbolic': C([one(th) for _ in order])}[other]
+    except Exception as e:
+        ctx.harness_errors.append('mixed-kind operand construction failed: %r' % e)
+        return
+    for a, b, nm in ((X, Y, 'X op Y'), (Y, X, 'Y op X')):
+        for op in ('eq', 'ne'):
+            try:
+                v = OPS[op](a, b)
+                ok = isinstance(v, list) and len(v) == len(order) and all(isinstance(x, (bool, np.bool_)) for x in v)
+                if ok and other == 'self':
+                    ok = all(bool(x) == (op == 'eq') for x in v)
+                if ok and other in ('single', 'numeric'):
+                    # the floating point values are compared by value
+                    ok = all(bool(x) == ((op == 'eq') == (i == 0 or other == 'numeric')) for i, (x, k) in enumerate(zip(v, order)) if k == 'n')
+                got = core.short(v, 100)
+            except Exception as e:
+                ok, got = False, 'raised %r' % e
+            ctx.judge('table', ok, dict(sig, kind='mixed_kind_comparison_wrong', other=other),
+                      lambda: '%s %s (%s) with X holding values of kinds %s and Y = %s gave %s' % (c, op, nm, order, other, got))
+    ctx.cell('mixed_eq', c, order, other)
+
+
+RUNNERS = {'cell': run_cell, 'scalar_values': run_scalar_values, 'mixed_eq': run_mixed_eq}
 
 
 def REACH():
@@ -504,6 +539,12 @@ def run(ctx):
                     a3 = operand(rng, c, True) + operand(rng, c, False)
                     for a_, b_ in ((operand(rng, c, True), a3), (a3, operand(rng, c, True))):
                         drive(RUNNERS, ctx, 'cell', dict(L=c, R=c, op=op, a=a_, b=b_, exp=['raise'], unequal=True))
+    for c in POSES:
+        for order in ('ns', 'sn', 'nns', 'snn', 'nsn'):
+            for other in ('self', 'single', 'numeric', 'symbolic'):
+                i += 1
+                if ctx.mine(i):
+                    drive(RUNNERS, ctx, 'mixed_eq', dict(cls=c, order=order, other=other))
     # operands holding no value (Empty()): never None
     for c in POSES + ['Quaternion', 'UnitQuaternion', 'Twist2', 'Twist3']:
         d_ = 2 if c in ('SO2', 'SE2', 'Twist2') else 3
